@@ -37,27 +37,69 @@ theorem prim_stop (a b : State) (hl : C05.Inv a) (p : Prim a b) : Stop a b := by
   cases p
   case cleanup => exact .clean rfl rfl (by simp [cleanup]) rfl rfl rfl rfl
   case mark => exact .mark rfl rfl rfl rfl rfl rfl rfl
-  case sockOpened g1 g2 _ _ =>
-    refine .advance ?_ (Or.inl rfl) rfl rfl rfl rfl rfl rfl
-    rcases hl.startPend (Or.inr g1) with h | h
-    · exact Or.inl h
-    · exact absurd h g2
+  case startOk g =>
+    have e1 : ∀ x : State, (aStartFutCb x).st = x.st ∧ (aStartFutCb x).stops = x.stops ∧ (aStartFutCb x).onStopHeld = x.onStopHeld ∧
+        (aStartFutCb x).everConnected = x.everConnected ∧ (aStartFutCb x).expected = x.expected ∧
+        (aStartFutCb x).graceful = x.graceful ∧ (aStartFutCb x).gracefulAtClose = x.gracefulAtClose := by
+      intro x; simp only [aStartFutCb]; split <;> simp
+    have hx : startOkPath a = (if (aStartFutCb (aStartAttach a)).st = .closed
+        then aStartDone (.err (wrap (cleanup (aStartFutCb (aStartAttach a))) .interrupted)) (cleanup (aStartFutCb (aStartAttach a)))
+        else aSockOpened (aStartFutCb (aStartAttach a))) := rfl
+    obtain ⟨f1, f2, f3, f4, f5, f6, f7⟩ := e1 (aStartAttach a)
+    have f1' : (aStartFutCb (aStartAttach a)).st = a.st := f1
+    have f2' : (aStartFutCb (aStartAttach a)).stops = a.stops := f2
+    have f3' : (aStartFutCb (aStartAttach a)).onStopHeld = a.onStopHeld := f3
+    have f4' : (aStartFutCb (aStartAttach a)).everConnected = a.everConnected := f4
+    have f5' : (aStartFutCb (aStartAttach a)).expected = a.expected := f5
+    have f6' : (aStartFutCb (aStartAttach a)).graceful = a.graceful := f6
+    have f7' : (aStartFutCb (aStartAttach a)).gracefulAtClose = a.gracefulAtClose := f7
+    rw [hx]
+    generalize aStartFutCb (aStartAttach a) = y at *
+    by_cases hc : a.st = .closed
+    · rw [if_pos (f1'.trans hc)]
+      refine .clean rfl ?_ ?_ ?_ ?_ ?_ ?_ <;> simp [aStartDone, cleanup, f1', f2', f3', f4', f5', f6', f7']
+    · rw [if_neg (by rw [f1']; exact hc)]
+      have hin : a.st = .init := by
+        rcases hl.startPend (Or.inr g) with h | h
+        · exact h
+        · exact absurd h hc
+      exact .advance (Or.inl hin) (Or.inl rfl) f2' f3' f4' f5' f6' f7'
   case hsEnter g1 g2 _ =>
     refine .advance ?_ (Or.inr rfl) rfl rfl rfl rfl rfl rfl
     rcases hl.finTr g1 with h | h | h
     · exact Or.inr (Or.inl h)
     · exact Or.inr (Or.inr h)
     · exact absurd h g2
-  case connected g1 g2 _ _ _ =>
-    refine .connected ?_ rfl rfl rfl rfl rfl rfl rfl
-    rcases hl.finHello g1 with h | h
-    · exact h
-    · exact absurd h g2
+  case helloOk g _ =>
+    have e1 : ∀ x : State, (aFinFutCb x).st = x.st ∧ (aFinFutCb x).stops = x.stops ∧ (aFinFutCb x).onStopHeld = x.onStopHeld ∧
+        (aFinFutCb x).everConnected = x.everConnected ∧ (aFinFutCb x).expected = x.expected ∧
+        (aFinFutCb x).graceful = x.graceful ∧ (aFinFutCb x).gracefulAtClose = x.gracefulAtClose := by
+      intro x; simp only [aFinFutCb]; split <;> simp
+    have hx : helloOkPath a = (if (aFinFutCb (aKeepalive a)).st = .closed
+        then aFinDone (.err (wrap (cleanup (aFinFutCb (aKeepalive a))) .interrupted)) (cleanup (aFinFutCb (aKeepalive a)))
+        else aConnected (aFinFutCb (aKeepalive a))) := rfl
+    obtain ⟨f1, f2, f3, f4, f5, f6, f7⟩ := e1 (aKeepalive a)
+    have f1' : (aFinFutCb (aKeepalive a)).st = a.st := f1
+    have f2' : (aFinFutCb (aKeepalive a)).stops = a.stops := f2
+    have f3' : (aFinFutCb (aKeepalive a)).onStopHeld = a.onStopHeld := f3
+    have f4' : (aFinFutCb (aKeepalive a)).everConnected = a.everConnected := f4
+    have f5' : (aFinFutCb (aKeepalive a)).expected = a.expected := f5
+    have f6' : (aFinFutCb (aKeepalive a)).graceful = a.graceful := f6
+    have f7' : (aFinFutCb (aKeepalive a)).gracefulAtClose = a.gracefulAtClose := f7
+    rw [hx]
+    generalize aFinFutCb (aKeepalive a) = y at *
+    by_cases hc : a.st = .closed
+    · rw [if_pos (f1'.trans hc)]
+      refine .clean rfl ?_ ?_ ?_ ?_ ?_ ?_ <;> simp [aFinDone, cleanup, f1', f2', f3', f4', f5', f6', f7']
+    · rw [if_neg (by rw [f1']; exact hc)]
+      have hin : a.st = .hsDone := by
+        rcases hl.finHello g with h | h
+        · exact h
+        · exact absurd h hc
+      exact .connected hin rfl f2' f3' rfl f5' f6' f7'
   case collect r _ => refine .same ?_ ?_ ?_ ?_ ?_ ?_ ?_ <;> (simp only [collect]; (repeat' split) <;> rfl)
-  case startFutCb => refine .same ?_ ?_ ?_ ?_ ?_ ?_ ?_ <;> (simp only [aStartFutCb]; split <;> rfl)
   case finFutQuiet => refine .same ?_ ?_ ?_ ?_ ?_ ?_ ?_ <;> (simp only [aFinFutQuiet]; split <;> rfl)
   case trCancelled => refine .same ?_ ?_ ?_ ?_ ?_ ?_ ?_ <;> (simp only [aTrCancelled]; split <;> rfl)
-  case finFutCb => refine .same ?_ ?_ ?_ ?_ ?_ ?_ ?_ <;> (simp only [aFinFutCb]; split <;> rfl)
   all_goals exact .same rfl rfl rfl rfl rfl rfl rfl
 
 structure Inv (s : State) : Prop where
